@@ -240,13 +240,14 @@ SCENARIOS = dict(
     C01=dict(quick=['gauss', 'two_split', 'wrap_net', 'half', 'g3_pool_s', 'plateau', 'nlb',
                     'funnel_net', 'ring_net', 'ring_split_net:resume', 'const:resume',
                     'wrap_pool_s:resume', 'g5:resume', 'net2_tanh:resume', 'cross_split:resume',
-                    'empty:resume'],
+                    'empty:resume', 'gauss_stale:resume'],
              thorough=['gauss', 'gauss_net', 'two', 'ring_net', 'half', 'plateau', 'wrap',
                        'wrap_net', 'g3_pool_s', 'two_pool_s', 'b7_update', 'blob_two_obj', 'b1',
                        'funnel_net', 'funnel', 'nlb', 'nlb_ring', 'empty', 'two_split', 'ring_split_net',
                        'const', 'nuisance3_net', 'wrap_pool_s', 'gauss:resume3', 'half:resume3',
                        'plateau:resume3', 'const:resume3', 'g5', 'net2_tanh']),
-    C02=dict(quick=['gauss_d', 'half', 'gauss_t', 'wrap_net', 'two_split:resume/0/2+resume/1/2',
+    C02=dict(quick=['gauss_d', 'half', 'gauss_t', 'wrap_net', 'wrap_net:slices',
+                    'two_split:resume/0/2+resume/1/2+slices',
                     'const:resume',
                     'funnel_net:resume/0/2+resume/1/2+nshell',
                     'empty:resume/0/2+resume/1/2+nshell'],
@@ -261,12 +262,14 @@ SCENARIOS = dict(
              thorough=['blob_float', 'blob_int_vec', 'blob_two_obj', 'blob_array_pool',
                        'blob_struct_dictfn', 'blob_f32_inplace', 'blob_float_b1', 'blob_array_b1',
                        'blob_two_b2_vec', 'blob_struct_b1', 'vec_inplace', 'obj_array_vec',
-                       'dictfn_vec_net', 'pool_l3', 'gauss', 'wrap_net', 'vec_pool', 'cross_split:resume']),
+                       'dictfn_vec_net', 'pool_l3', 'gauss', 'wrap_net', 'vec_pool', 'cross_split:resume',
+                       'obj_vec']),
     C05=dict(quick=['gauss_s', 'gauss_d', 'wrap_net', 'blob_two_obj',
                     'net2_tanh:resume/0/2+resume/1/2', 'two_split', 'nlb',
                     'b7_update:resume/0/2+resume/1/2+slices/0/2+slices/1/2',
                     'const:resume/0/2+resume/1/2',
-                    'long_b5:resume1/0/3+resume1/1/3+resume1/2/3', 'half:resume2', 'plateau:resume2'],
+                    'long_b5:resume1/0/3+resume1/1/3+resume1/2/3', 'half:resume2', 'plateau:resume2',
+                    'gauss_stale:resume'],
              thorough=['gauss', 'gauss_s', 'gauss_d', 'gauss_net', 'two', 'ring_net', 'half', 'wrap',
                        'wrap_net', 'g3_pool_s', 'blob_float', 'blob_int_vec', 'blob_two_obj',
                        'blob_array_pool', 'blob_struct_dictfn', 'blob_f32_inplace',
@@ -274,9 +277,10 @@ SCENARIOS = dict(
                        'ring_split_net', 'const', 'nuisance3_net', 'funnel_net', 'g5', 'net2_tanh',
                        'long_b5:resume1']),
     C10=dict(quick=['gauss_s', 'b7_update', 'half', 'gauss_d', 'nlb', 'const:slices+resume',
-                    'cross_split:resume'],
+                    'cross_split:resume', 'obj_vec:resume+slices', 'dictfn_vec_net:resume'],
              thorough=['gauss', 'gauss_s', 'gauss_d', 'b7_update', 'half', 'b1', 'two', 'wrap_net',
-                       'blob_int_vec', 'pool_l3', 'cross_split', 'vec_pool', 'wrap_pool_s', 'g5']),
+                       'blob_int_vec', 'pool_l3', 'cross_split', 'vec_pool', 'wrap_pool_s', 'g5', 'obj_vec',
+                       'dictfn_vec_net', 'blob_struct_dictfn']),
     C11=dict(quick=['gauss_s', 'blob_array_pool', 'wrap_net', 'pool_l3', 'nuisance', 'vec_pool'],
              thorough=['gauss', 'gauss_s', 'gauss_net', 'blob_array_pool', 'pool_l3', 'wrap_net',
                        'two', 'nofile', 'blob_two_obj', 'nuisance', 'nuisance3_net', 'half', 'g3_pool_s',
@@ -453,6 +457,50 @@ def _steps_obs(scn, path):
         eng.close()
 
 
+def _mp_rows_job(size, vectorized):
+    """C03 through real worker processes: Sampler(pool=(size, None)) with likelihood_args/kwargs and
+    prior_args/kwargs; every posterior row must carry what the CONFIGURED likelihood returns for it"""
+    import numpy as np
+    from nautilus import Sampler
+    out = []
+    scen.LOG['on'] = False
+    try:
+        kw = dict(n_dim=2, n_live=40, n_batch=16, n_networks=0, seed=3 + 1000 * core.SEED,
+                  n_points_min=6, vectorized=vectorized,
+                  likelihood_kwargs=dict(scale=0.5, shift=2.0), prior_args=[0.0],
+                  prior_kwargs=dict(power=1))
+        if size:
+            kw['pool'] = (size, None)
+        s = Sampler(scen.prior_shift, scen.likelihood_kw, **kw)
+        try:
+            s.run(f_live=0.1, n_eff=100)
+            pts, log_w, log_l, blobs = s.posterior(return_blobs=True)
+        finally:
+            if s.pool_l is not None:
+                s.pool_l.pool.terminate()
+        exp = scen.likelihood_kw(pts, scale=0.5, shift=2.0)
+        bad_l = int(np.sum(exp[0] != log_l))
+        bad_b = int(np.sum(np.asarray(exp[1]) != np.asarray(blobs)))
+        if bad_l or bad_b:
+            out.append(Violation('C03', 'rows:configured-likelihood-mismatch:pool-{}'.format(size),
+                                 'pool of {} worker processes, likelihood_kwargs=dict(scale=0.5, '
+                                 'shift=2.0): {} of {} rows carry a log-likelihood and {} a blob that '
+                                 'the configured likelihood does not return for the row\'s point'
+                                 .format(size, bad_l, len(log_l), bad_b),
+                                 dict(kind='mprows', size=size, vectorized=vectorized)))
+        n = len(log_l)
+    except Exception as e:
+        out.append(Violation('C03', 'exception:pool-{}:{}'.format(size, type(e).__name__),
+                             'run with a pool of {} worker processes and likelihood_kwargs raised {}: '
+                             '{}'.format(size, type(e).__name__, str(e)[:300]),
+                             dict(kind='mprows', size=size, vectorized=vectorized)))
+        n = 0
+    finally:
+        scen.LOG['on'] = True
+    return dict(violations=out, label='mp-rows-{}'.format(size), scenario='likelihood_kw', depth=n,
+                final=None)
+
+
 def _three_ways_job(scn_dict):
     """C12: the three ways of getting discard_exploration on (argument of run(); setter right after
     exploration ended; setter after a resume) give the same statistics at every later batch."""
@@ -618,6 +666,10 @@ def extra_jobs(prop, tier, scns, results):
         for s in scns:
             if s['file']:
                 jobs.append(('checkpoints', prop, dict(s)))
+    if prop == 'C03':
+        for size in ((0, 2) if tier == 'quick' else (0, 2, 3)):
+            jobs.append(('mprows', size, False))
+        jobs.append(('mprows', 0, True))
     return jobs
 
 
@@ -658,6 +710,8 @@ def _any_job_inner(kind, *args):
         return _pair_job(*args)
     if kind == 'mp':
         return _mp_job(*args)
+    if kind == 'mprows':
+        return _mp_rows_job(*args)
     if kind == 'threeways':
         return _three_ways_job(*args)
     if kind == 'checkpoints':
@@ -692,8 +746,8 @@ def run(prop, tier):
         for variant in (0, 1):
             det_jobs.append(('det', dict(s), depth, variant))
     xjobs = extra_jobs(prop, tier, scns0, results)
-    pool_jobs = [j for j in xjobs if j[0] != 'mp']
-    main_jobs = [j for j in xjobs if j[0] == 'mp']
+    pool_jobs = [j for j in xjobs if j[0] not in ('mp', 'mprows')]
+    main_jobs = [j for j in xjobs if j[0] in ('mp', 'mprows')]
     allres = core.pmap(_any_job, det_jobs + pool_jobs)
     det = allres[:len(det_jobs)]
     xres = allres[len(det_jobs):] + [_any_job(*j) for j in main_jobs]
@@ -797,6 +851,8 @@ def replay(prop, path):
         out = _pair_job(r['scenario'], r['over_a'], r['over_b'], r['label'], r['depth'])['violations']
     elif kind == 'mp':
         out = _mp_job(r['scenario'], r['size'], 0)['violations']
+    elif kind == 'mprows':
+        out = _mp_rows_job(r['size'], r['vectorized'])['violations']
     elif kind == 'threeways':
         out = _three_ways_job(r['scenario'])['violations']
     elif kind == 'checkpoints':
